@@ -464,4 +464,9 @@ def run_unit(name, unit_props, rlimit=None, extra_args=(), gen_dir=None, timeout
         for fn in res.functions:
             if fn["success"] is False:
                 res.status, res.reason = "undecided", "function %s not verified but no failed obligation reported" % fn["function"]
+            elif fn["success"] is None:
+                # Verus printed its result object but has no entry for this function: its solver process died or was
+                # killed before a verdict (seen: `expected rlimit-count in smt statistics` in a worker thread)
+                res.status, res.reason = "undecided", "function %s not verified but no failed obligation reported: no verdict for it in Verus' result (solver died?) %s" % (
+                    fn["function"], (p.stderr or "")[-300:].replace("\n", " "))
     return res
